@@ -597,11 +597,11 @@ ENGINE_FLAVOURS = ("sync", "async", "raising", "raising-async", "raising-awaitab
 def _extra_cfgs(rng, quick, idx):
     """Guard configurations beyond the standard ten: no logger sink; Guards with a past (constructed with another
     policy, the roles-testing one installed later through set_policy / update_policy / a hot reload); both.
-    quick: one per case in turn (both, no sink, both, past); thorough: each of the three twice."""
+    quick: one per case in turn (both, no sink, both, past); thorough: each of the three."""
     def past():
         return {"how": rng.choice(PAST_HOWS), "prior": [rng.choice(PRIOR_KINDS) for _ in range(rng.choice([1, 1, 2]))],
                 "eval_before": rng.random() < 0.5}
-    shapes = [[(False, True), (False, False), (False, True), (True, True)][idx % 4]] if quick else [(False, True), (False, False), (True, True)] * 2
+    shapes = [[(False, True), (False, False), (False, True), (True, True)][idx % 4]] if quick else [(False, True), (False, False), (True, True)]
     return [{"flavour": rng.choice(("sync", "sync", "async", "async") + ENGINE_FLAVOURS),
              "cache": rng.random() < 0.25, "sink": sink, "past": past() if p else None} for sink, p in shapes]
 
